@@ -111,9 +111,11 @@ CHECKS = {
             {"pkg": "v2", "entries": ["VerifC02Lib"], "params": {"N": 2}},
             {"pkg": "v2", "entries": ["VerifC02Hunks"], "params": {"HUNKS": 1, "PAYLOADS": 2, "MULTI": 2}},
             {"pkg": "v2", "entries": ["VerifC02Hunks"], "params": {"HUNKS": 2, "PAYLOADS": 1, "MULTI": 1}},
+            {"pkg": "v2", "entries": ["VerifC02Hunks"], "params": {"HUNKS": 1, "PAYLOADS": 2, "MULTI": 1, "CTX2": 1}},
             {"pkg": "v2", "entries": ["VerifC02Color"], "params": {}},
         ],
         "thorough": [
+            {"pkg": "v2", "entries": ["VerifC02Hunks"], "params": {"HUNKS": 2, "PAYLOADS": 1, "MULTI": 1, "CTX2": 1}},
             {"pkg": "v2", "entries": ["VerifC02Lib"], "params": {"N": 3, "FAMS": 1}},
             {"pkg": "v2", "entries": ["VerifC02Lib"], "params": {"N": 2}},
             {"pkg": "v2", "entries": ["VerifC02Hunks"], "params": {"HUNKS": 1, "PAYLOADS": 4, "MULTI": 2}},
@@ -122,23 +124,25 @@ CHECKS = {
             {"pkg": "v2", "entries": ["VerifC02Color"], "params": {}},
         ],
         "covers": ["c02.lib.none", "c02.lib.set", "c02.lib.multiset", "c02.lib.setkeys", "c02.lib.merge", "c02.hunks", "c02.color"],
-        "outside": "character-level escaping of string payloads belongs to encoding/json (codec axioms; the colour leg uses a concrete alphabet incl. quotes, <>&, control and non-BMP characters through the real codec); more than 3 hunks, more than 2 removes/adds per hunk, more than one context line",
+        "outside": "character-level escaping of string payloads belongs to encoding/json (codec axioms; the colour leg uses a concrete alphabet incl. quotes, <>&, control and non-BMP characters through the real codec); more than 3 hunks, more than 2 removes/adds per hunk, more than two context lines (two only in the CTX2 runs)",
     },
     "C15": {
         "quick": [
             {"pkg": "v2", "entries": ["VerifC15History"], "params": {"H": 2, "N": 2}},
             {"pkg": "v2", "entries": ["VerifC15History"], "params": {"H": 1, "N": 2, "OPTN": 4, "FAMS": 4}},
             {"pkg": "v2", "entries": ["VerifC15MapOrder"], "params": {}, "replay_repeat": 40},
+            {"pkg": "v2", "entries": ["VerifC15MapOrderSets"], "params": {"N": 2}, "replay_repeat": 40},
         ],
         "thorough": [
             {"pkg": "v2", "entries": ["VerifC15History"], "params": {"H": 3, "N": 2, "FAMS": 1}},
             {"pkg": "v2", "entries": ["VerifC15History"], "params": {"H": 2, "N": 3}},
             {"pkg": "v2", "entries": ["VerifC15History"], "params": {"H": 2, "N": 2, "OPTN": 4, "FAMS": 4}},
             {"pkg": "v2", "entries": ["VerifC15MapOrder"], "params": {}, "replay_repeat": 40},
+            {"pkg": "v2", "entries": ["VerifC15MapOrderSets"], "params": {"N": 3}, "replay_repeat": 40},
         ],
-        "covers": ["c15.history.none", "c15.history.merge", "c15.history.set", "c15.history.multiset", "c15.maporder"],
+        "covers": ["c15.mapordersets", "c15.history.none", "c15.history.merge", "c15.history.set", "c15.history.multiset", "c15.maporder"],
         "outside": "histories longer than H calls; 'fresh processes' are represented by map-iteration-order nondeterminism only (the sole per-process randomness in scope); objects with more than 2-3 keys in the map-order leg",
-        "assumptions": ["map iteration: the engine forks over every permutation of the entries at each range statement (independently per statement); native replay of a map-order counterexample is statistical (40 repetitions)"],
+        "assumptions": ["map iteration: in the MapOrder leg the engine forks over every permutation of the entries at each range statement (independently per statement); in the MapOrderSets leg (set / multiset diff and patch, which range over several maps) it compares insertion order with reverse order for all maps at once, which is one alternative order, not all; native replay of a map-order counterexample is statistical (40 repetitions)"],
     },
     "C11": {
         "quick": [
@@ -185,14 +189,14 @@ CHECKS = {
     "C06": {
         "quick": [
             {"pkg": "v2", "entries": ["VerifC06Flat"], "params": {"N": 3, "M": 2, "WRAPS": 2}},
-            {"pkg": "v2", "entries": ["VerifC06Recurse"], "params": {"N": 3}},
+            {"pkg": "v2", "entries": ["VerifC06Recurse"], "params": {"N": 3, "EMPTIES": 1}},
             {"pkg": "v2", "entries": ["VerifC06Flat"], "params": {"N": 4, "M": 4, "EXACT": 1, "CONCA": 1, "WRAPS": 2}},
         ],
         "thorough": [
             {"pkg": "v2", "entries": ["VerifC06Flat"], "params": {"N": 3, "M": 3, "WRAPS": 4}},
             {"pkg": "v2", "entries": ["VerifC06Flat"], "params": {"N": 4, "M": 2, "WRAPS": 1}},
             {"pkg": "v2", "entries": ["VerifC06Flat"], "params": {"N": 2, "M": 4, "WRAPS": 1}},
-            {"pkg": "v2", "entries": ["VerifC06Recurse"], "params": {"N": 4}},
+            {"pkg": "v2", "entries": ["VerifC06Recurse"], "params": {"N": 4, "EMPTIES": 1}},
             {"pkg": "v2", "entries": ["VerifC06Flat"], "params": {"N": 4, "M": 4, "EXACT": 1, "WRAPS": 1}},
             {"pkg": "v2", "entries": ["VerifC06Flat"], "params": {"N": 5, "M": 4, "EXACT": 1, "CONCA": 1, "WRAPS": 1}},
         ],
